@@ -346,6 +346,114 @@ NONRIGID = ["DisplacementFieldTransform", "StationaryVelocityFieldTransform", "F
             "StationaryVelocityFreeFormDeformation"]
 
 
+def inverse_op(cls, update_buffers, via):
+    """inverse(link=False, update_buffers=...) with the loss taken through inv(points), inv.tensor() or inv.disp().
+    Protocol of the docstrings: t.update() before inverse(update_buffers=True); inv.update() before using an inverse
+    created with update_buffers=False other than by calling it."""
+    def build(D, gen):
+        grid = mk_grid(D, gen)
+        t = cls(grid).to(DT)
+        params = list(t.parameters())
+        with torch.no_grad():
+            for q in params:
+                q.add_(rnd(gen, *q.shape) * 0.1)
+        pts = rnd(gen, 1, 6, D, lo=-0.6, hi=0.6)
+        w = {}
+
+        def value():
+            t.update()
+            inv = t.inverse(link=False, update_buffers=update_buffers)
+            if via == "call":
+                y = inv(pts)
+            else:
+                if not update_buffers:
+                    inv.update()
+                y = inv.tensor() if via == "tensor" else inv.disp()
+            return y
+
+        with torch.no_grad():
+            w["w"] = rnd(gen, *value().shape)
+        f = lambda: (value() * w["w"]).sum()
+        return f, params
+    return build
+
+
+def loss_class_ops():
+    """every loss class exported by deepali.losses, w.r.t. every tensor argument that can require grad"""
+    import deepali.losses as LS
+    ops = []
+
+    def pair(mk, positive=False, channels=2, dims=(2, 3)):
+        def build(D, gen):
+            shape = (6, 7) if D == 2 else (5, 6, 5)
+            lo = 0.05 if positive else -1.0
+            x = rnd(gen, 1, channels, *shape, lo=lo, hi=1.0).requires_grad_(True)
+            y = rnd(gen, 1, channels, *shape, lo=lo, hi=1.0).requires_grad_(True)
+            loss = mk(D, gen)
+            return (lambda: loss(x, y)), [x, y]
+        return build, dims
+
+    pairwise = [("Dice", lambda D, g: LS.Dice(), dict(positive=True)), ("NCC", lambda D, g: LS.NCC(), {}),
+                ("LCC", lambda D, g: LS.LCC(kernel_size=3), {}), ("WLCC", lambda D, g: LS.WLCC(kernel_size=3), {}),
+                ("MI", lambda D, g: LS.MI(vmin=-1.25, vmax=1.25, num_bins=8), dict(channels=1)),
+                ("NMI", lambda D, g: LS.NMI(vmin=-1.25, vmax=1.25, num_bins=8), dict(channels=1)),
+                ("L1ImageLoss", lambda D, g: LS.L1ImageLoss(), {}), ("HuberImageLoss", lambda D, g: LS.HuberImageLoss(), {}),
+                ("SmoothL1ImageLoss", lambda D, g: LS.SmoothL1ImageLoss(), {}), ("L2ImageLoss", lambda D, g: LS.L2ImageLoss(), {}),
+                ("SSD", lambda D, g: LS.SSD(), {}),
+                ("PatchwiseImageLoss", lambda D, g: LS.PatchwiseImageLoss(rnd(g, 1, 2, 3, 3, 3, lo=-0.8, hi=0.8)), dict(dims=(3,)))]
+    for name, mk, kw in pairwise:
+        b, dims = pair(mk, **kw)
+        ops.append(Op(f"losses.{name}", b, dims=dims))
+
+    def disp(mk):
+        def build(D, gen):
+            shape = (6, 7) if D == 2 else (5, 6, 5)
+            u = smooth_field(D, gen, shape, amp=0.5).requires_grad_(True)
+            loss = mk()
+            return (lambda: loss(u)), [u]
+        return build
+    for name, mk in (("Bending", lambda: LS.Bending()), ("Curvature", lambda: LS.Curvature()), ("Diffusion", lambda: LS.Diffusion()),
+                     ("Divergence", lambda: LS.Divergence()), ("Elasticity", lambda: LS.Elasticity(first_parameter=1.0, second_parameter=0.5)), ("TotalVariation", lambda: LS.TotalVariation())):
+        ops.append(Op(f"losses.{name}", disp(mk)))
+
+    def bspline(D, gen):
+        shape = (6, 7) if D == 2 else (5, 6, 5)
+        c = smooth_field(D, gen, shape, amp=0.5).requires_grad_(True)
+        loss = LS.BSplineBending()
+        return (lambda: loss(c)), [c]
+    ops.append(Op("losses.BSplineBending", bspline))
+
+    def params(mk):
+        def build(D, gen):
+            q = rnd(gen, 2, 7, lo=0.1, hi=1.0).requires_grad_(True)
+            loss = mk()
+            return (lambda: loss(q)), [q]
+        return build
+    for name, mk in (("L1Norm", lambda: LS.L1Norm()), ("L2Norm", lambda: LS.L2Norm()), ("Sparsity", lambda: LS.Sparsity())):
+        ops.append(Op(f"losses.{name}", params(mk), dims=(2,)))
+
+    def points(mk, same_count):
+        def build(D, gen):
+            # well separated targets (lattice sites + jitter) and sources near distinct targets: the closest-point assignment
+            # is stable under the finite-difference step (these losses cast to float32: step 4e-3)
+            def cloud(n):
+                sites = torch.stack(torch.meshgrid(*[torch.arange(3, dtype=DT)] * D, indexing="ij"), -1).reshape(-1, D)
+                out = []
+                for _ in range(2):
+                    idx = torch.randperm(sites.shape[0], generator=gen)[:n]
+                    out.append(sites[idx] + rnd(gen, n, D) * 0.05)
+                return torch.stack(out)
+            ys = [cloud(5 if same_count else 7).requires_grad_(True) for _ in range(2)]
+            off = rnd(gen, 2, 5, D, lo=0.12, hi=0.25) * torch.where(rnd(gen, 2, 5, D) < 0, -1.0, 1.0)
+            x = (ys[0].detach()[:, :5] + off).requires_grad_(True)
+            loss = mk()
+            return (lambda: loss(x, *ys)), [x] + ys
+        return build
+    ops.append(Op("losses.ClosestPointDistance", points(lambda: LS.ClosestPointDistance(), False)))
+    ops.append(Op("losses.LandmarkPointDistance", points(lambda: LS.LandmarkPointDistance(), True)))
+    return ops
+
+
 def registry():
     ops = []
     for name in LINEAR + NONRIGID:
@@ -393,6 +501,18 @@ def registry():
     for nm, fn, kw in regs:
         ops.append(Op(nm, reg_loss_op(fn, **{k: v for k, v in kw.items() if v is not None or k != "material_name"})))
     ops.append(Op("inverse_consistency_loss", build_inverse_consistency))
+    ops.append(Op("wlcc_loss", sim_loss_op(LF.wlcc_loss, kernel_size=3)))
+    for name in LINEAR + NONRIGID:
+        if name in ("DisplacementFieldTransform", "FreeFormDeformation"):
+            continue          # no inverse() implemented
+        cls = getattr(S, name)
+        dims = (3,) if "Quaternion" in name else (2, 3)
+        for ub in (False, True):
+            for via in ("call", "tensor", "disp"):
+                if via == "call" and not ub:
+                    continue  # = "<name>.inverse" above
+                ops.append(Op(f"{name}.inverse(update_buffers={ub}).{via}", inverse_op(cls, ub, via), dims=dims, max_coords=10))
+    ops += loss_class_ops()
     return ops
 
 
